@@ -58,6 +58,7 @@ inductive DOp where
   | op (o : Op)
   | fast (b : BlockAbs)
   | restart
+  | blockEv (b : BlockAbs) (fast : Bool) (victim : Option Hash)   -- delivery with a forced eviction victim
 deriving Inhabited
 
 /-- the orphan-pool bound is an internal tuning constant of btcd: it is read from the compiled tree
@@ -65,10 +66,11 @@ deriving Inhabited
 def orphanBound : Nat := BV.Generated.C02.maxOrphanBlocks.toNat
 
 def stepD (s : State) : DOp → State × Res
-  | .op (.block b) => processBlockB orphanBound false s b
+  | .op (.block b) => processBlockB orphanBound false none s b
   | .op o => step s o
-  | .fast b => processBlockB orphanBound true s b
+  | .fast b => processBlockB orphanBound true none s b
   | .restart => (restart s, .ok)
+  | .blockEv b f v => processBlockB orphanBound f (some v) s b
 
 /-- op tokens: b<id> ProcessBlock, n<id> ProcessBlock with BFNoPoWCheck (same effect on valid PoW),
 f<id> ProcessBlock with BFFastAdd, h<id> / k<id> ProcessBlockHeader (k: skipCheckpoint, no
@@ -164,6 +166,7 @@ def specAfter (sp : SpecSt) (o : DOp) (s s' : State) : SpecSt :=
   match o with
   | .op o => specAfterOp sp o s s'
   | .fast b => specAfterOp sp (.block b) s s'
+  | .blockEv b _ _ => specAfterOp sp (.block b) s s'
   -- the orphan pool does not survive a restart: what was only pooled is no longer delivered
   | .restart => { sp with delivered := sp.delivered.filter (fun x => (s'.status x.hash).data) }
 
@@ -203,11 +206,17 @@ def choicesOf (s : State) : DOp → List (Option Hash)
       -- all inactive tips may be named; `pick` ignores names outside the max-work set
       none :: ((s.idx.map (fun n => some n.blk.hash)))
   | .op (.reconsider h _) => none :: (s.idx.map (fun n => some n.blk.hash))
+  -- pool overflow: the model's own policy (none), "drop nothing" (some 0: genesis is never pooled),
+  -- or any one pooled orphan
+  | .op (.block b) => if overflows orphanBound s b then none :: some 0 :: s.orphans.map (fun p => some p.1.hash) else [none]
+  | .fast b => if overflows orphanBound s b then none :: some 0 :: s.orphans.map (fun p => some p.1.hash) else [none]
   | _ => [none]
 
 def withChoice : DOp → Option Hash → DOp
   | .op (.invalidate h _), c => .op (.invalidate h c)
   | .op (.reconsider h _), c => .op (.reconsider h c)
+  | .op (.block b), some v => .blockEv b false (if v == 0 then none else some v)
+  | .fast b, some v => .blockEv b true (if v == 0 then none else some v)
   | o, _ => o
 
 def distinctOutcomes (s : State) (o : DOp) (ids : List Hash) : List String :=
@@ -244,6 +253,18 @@ def explainRun (ids : List Hash) : State → SpecSt → List DOp → List String
         | _ => "spec@" ++ toString k
       else explainRun ids s' sp' rest gs (k + 1)
 
+/-- is the implementation's observation sequence one the model admits (for SOME admissible choice at
+every op whose outcome the property leaves open: map order in invalidate/reconsider, the eviction
+victim on pool overflow)? -/
+def memberRun (ids : List Hash) : State → List DOp → List String → Bool
+  | _, [], [] => true
+  | _, [], _ :: _ => false
+  | _, _ :: _, [] => false
+  | s, o :: rest, g :: gs =>
+    match (choicesOf s o).find? (fun c => let (s', r) := stepD s (withChoice o c); observe s' r ids (stepNotes s s') == g) with
+    | none => false
+    | some c => memberRun ids (stepD s (withChoice o c)).1 rest gs
+
 def prep (tree ops : String) : Option (List BlockAbs × List DOp × List Hash) :=
   match parseTree? tree with
   | none => none
@@ -276,6 +297,12 @@ def handle : List String → String
     match prep tree ops with
     | none => "bad-op"
     | some (_, os, ids) => if ambRun ids init os then "1" else "0"
+  | ["member", tree, ops, g] =>
+    -- "1" if g is admissible; the harness then reports the model's default rendering (`run`) as the
+    -- canonical representative of the admissible set
+    match prep tree ops with
+    | none => "bad-op"
+    | some (_, os, ids) => if memberRun ids init os (g.splitOn ";") then "1" else "0"
   | ["explain", tree, ops, g] =>
     match prep tree ops with
     | none => "bad-op"
